@@ -3010,6 +3010,18 @@ func ruleSearchNormalisesBoth(c *eng.Ctx) {
 	for i := 0; i < len(hosts); i++ {
 		hosts = append(hosts, hosts[i].AnonFuncs...)
 	}
+	// predicates handed on as function values (a method value of a selector object)
+	eng.Instrs(fn, false, func(in ssa.Instruction) {
+		if ci, ok := in.(ssa.CallInstruction); ok {
+			for _, a := range ci.Common().Args {
+				if _, isSig := a.Type().Underlying().(*types.Signature); isSig {
+					if fs, _ := eng.FuncValues(a); len(fs) > 0 {
+						hosts = append(hosts, fs...)
+					}
+				}
+			}
+		}
+	})
 	seenH := map[*ssa.Function]bool{}
 	for _, h := range hosts {
 		if h.Pkg != fn.Pkg || seenH[h] {
